@@ -33,7 +33,7 @@ CHECKS = {
  "C03": ("E2", "fault_enumeration",
    "exhaustive enumeration of failed-evaluation subsets over the BFS state space + malformed-annotation sweep",
    "In every reachable configuration every subset of candidates is marked 'evaluation failed': no payload may name them and their installed form must be unchanged; deletes may only name installed, unmanaged policies. Malformed annotations are driven through the real candidate reader and the real plan.",
-   "Plan level only so far (evaluation and end-to-end parts are added by E5/E6); same trusted base as C01.", "DESIGN.md §2 E2"),
+   "Plan level (E2) plus the evaluation stage against a fake IRRd (E5): unknown as-set and D/E/F answers to the as-set query must make the evaluation fail, never yield a smaller set; same trusted base as C01.", "DESIGN.md §2 E2"),
  "C16": ("E2", "exploration",
    "bounded-exhaustive enumeration of generated running configurations against an independent selection rule",
    "Product of comment kinds x active attribute forms x extra/duplicate attributes x all attribute orders x statement bodies x names (incl. XML metacharacters), every single statement and every ordered pair of a representative subset, through the agent's real candidate reader.",
@@ -66,6 +66,14 @@ CHECKS = {
    "exhaustive exploration of outcome sequences x periods x signal plans of the real daemon loop in virtual time",
    "The real Loop::start (interval, select!, back-off arithmetic, signal arms, handle_task(tokio::spawn(job))) runs under a paused tokio clock for every outcome string over {success, failure} up to length 8 (thorough 11) x 11 periods on both sides of the one-minute back-off x three run-duration profiles, long outages (40 failures) and panicking jobs; SIGHUP / SIGINT / SIGTERM are raised mid-wait and mid-run at instants placed relative to the undisturbed timeline. A constraint oracle (not a copy of the arithmetic) checks first run at 0, exact period after success, first retry after one minute, delays positive, within [min(60 s, period), max(60 s, period)], non-decreasing and growing below the period, immediate run on SIGHUP, clean exit on INT/TERM at the right instant.",
    "The job body is scripted (hook H4); signal/timer ties to the millisecond are not generated; for periods below one minute the monotonicity clause is not applied (see DESIGN).", "DESIGN.md §2 E7"),
+ "C11": ("E5", "exploration",
+   "bounded-exhaustive expression grammar x IRR databases against an independent per-prefix membership oracle",
+   "Every expression of a bounded grammar (as-set, aut-num, route-set, filter-set, literal prefix sets with every range operator, range operators on named sets, all binary AND/OR combinations, AND-NOT forms, depth-2 trees in the thorough tier) over 6 IRR databases (nested, cyclic, self-referencing and empty as-sets; ASes with IPv4 only, IPv6 only, both, none; duplicate route objects; nested route-sets; a filter-set with two objects) is evaluated by the real RpslEvaluator on a fresh connection to a fake IRRd; the printed output of the real bgpfu command (one expression of every shape per database) and the route-filters the agent installs over a three-run history with withdrawn routes are compared with the same oracle.",
+   "Recursive set expansion is done by the (fake) IRRd as the client requests; the oracle decides membership per prefix of a finite universe (two IPv4 and two IPv6 trees) without using the ip crate's set algebra.", "DESIGN.md §2 E5 C11"),
+ "C17": ("E5", "model_checking",
+   "exhaustive operation sequences (all histories up to a length bound x every single-fault injection) against a fresh-connection reference",
+   "All sequences of up to 3 (thorough 4) expressions over an alphabet of 8 on one evaluator / IRR connection, without faults and with one injected error answer (D, E, F) at every query index of every member; every member's result must equal the result of the same expression, with the same fault, on a fresh connection; the evaluator must remain usable after failures.",
+   "Connection loss mid-stream is not injected (irrc spins on EOF: dependency behaviour recorded in DESIGN).", "DESIGN.md §2 E5 C17"),
 }
 
 NOT_YET = "check not built yet (construction in progress; see DESIGN.md)"
